@@ -322,7 +322,6 @@ func H_plural(nforms int) {
 	verifAssert(got == "["+body+"]"+c11RestPlural(dm), "C11: the selected plural form is not rendered with the placeholders' own values")
 }
 
-
 // H_catalogue: a bundle with a plural message and plain messages, extracted the way xgettext-soy
 // does (one PO entry per message with its "id=" and "var=" references), loaded through the real
 // newBundle in the order given by perm, identity translations; the render with the catalogue must
@@ -371,7 +370,6 @@ func H_catalogue(perm int) {
 	verifAssert(rerr == nil, "C11: render with the identity catalogue failed")
 	verifAssert(got == plain, "C11: identity catalogue does not render the source text")
 }
-
 
 // H_sameID: two messages with the same text and placeholder names (hence the same id) but
 // different expressions, in one template; under the identity catalogue each renders its own
